@@ -198,7 +198,7 @@ CONFIG = {
     "assumptions": [
         "copy phase: C03_extended_closure / C03_depth_own_graph / C03_depth_nothing_outside / C03_nothing_outside are stated over C01's transition system (Model/CopySpec.v): extended_copy_run = ONE accepted run in which every root found is dispatched (c_root + c_xroots: one syncutil.Go, shared tracker/proxy/limiter), returned success, link-closed initial destination; closure below every root and 'writes only below dispatched roots' are proved here from C01's invariants (Proofs/FindRootsCopy.v closure_all_roots, run_writes_below_roots) for any number of roots and every accepted interleaving. That the real ExtendedCopyGraph's visible events form an accepted trace of that system is checked by C01's/C02's correspondence, not here: harness/copyh records ExtendedCopyGraph / ExtendedCopy runs (modes x / X, instrumented stores, controlled schedules under testing/synctest, latencies) and feeds them to the CopySpec acceptor with c_root+c_xroots = the roots above the node (bin/check C01); the C03 oracle checks the end-to-end statement on the real ExtendedCopy/ExtendedCopyGraph with Concurrency 0-4 under native scheduling, empty and prefilled (link-closed) destinations. The *_gen forms keep the closure facts as Section hypotheses copy_closure_C01 / copy_only_C01; mt_consistent is C01's hypothesis for digest-keyed destinations",
         "acyclic_source: the source's predecessor relation is acyclic (content addressing: a predecessor embeds the digest of its successor); pred_is_inverse_link: Predecessors is the inverse of content.Successors on the source (C07's subject; the harness checks it against the generator's edge list on every case)",
-        "served_ok (C03_filter_exact; needed: C03_filter_exact_refuted_embedded): pushing content to a memory/file store with a descriptor whose annotations/artifactType are not the manifest's is a caller inconsistency outside the property; a reloaded OCI layout serves plain predecessors since fix 53cd0be (audit F1, generated: embedded descriptors with their own fields). a served descriptor may lack artifactType/annotations, but what it carries is the manifest's; a ReferrerLister source (remote repository: Referrers API response / referrers-tag index) serves complete referrer descriptors (artifactType = effective type, annotations = the manifest's) as the distribution spec requires -- the first filter does not fetch there. The harness registry serves such descriptors; generators keep descriptors consistent",
+        "served_ok (C03_filter_exact; needed: C03_filter_exact_refuted_embedded): pushing content to a memory/file store with a descriptor whose annotations/artifactType are not the manifest's is a caller inconsistency outside the property; a reloaded OCI layout serves plain predecessors since fix fda86b1 (audit F1, generated: embedded descriptors with their own fields). a served descriptor may lack artifactType/annotations, but what it carries is the manifest's; a ReferrerLister source (remote repository: Referrers API response / referrers-tag index) serves complete referrer descriptors (artifactType = effective type, annotations = the manifest's) as the distribution spec requires -- the first filter does not fetch there. The harness registry serves such descriptors; generators keep descriptors consistent",
         "a user-supplied opts.FindPredecessors set before the filter calls is not modelled (the stack starts from src.Predecessors / Referrers); regular expressions are their MatchString function (str -> bool), quantified over; Go regexp is evaluated by the harness into the truth table the model receives",
         "encoding/json decoding of artifactType / config.mediaType / annotations is modelled as field selection (s_mat, s_mcfg, s_mann)",
         "for a remote repository the source's predecessor relation is the referrers (subject) relation only (Repository.Predecessors = Referrers); HTTP, pagination and the tag-schema fallback are exercised through an in-memory registry, not modelled (C15 models the page loop): the client's ReferrerListPageSize (unset / smaller / equal / larger), the registry's page cap, short pages with Link and server-side vs client-side artifactType filtering are drawn independently; a predecessor the source does not serve is reported (predecessors-missing); errors of Predecessors/Fetch are not modelled (findRoots returns them unchanged)",
